@@ -231,14 +231,16 @@ Section Chain.
 
   (* starting a run *)
   Lemma try_start_exact clock :
-    try_start n x clock =
+    try_start n lim x clock =
       if step_ok s0 x [] then Some (push (mkRun 1 [] [] false None clock) x (st_alias s0)) else None.
   Proof.
     unfold try_start. rewrite chain_start. cbn [s_trans start_go].
     assert (H0 : nth_error steps 0 = Some s0) by reflexivity.
     rewrite (chain_nth _ _ H0).
     assert (M : matches_state (chain_state 0 s0) x [] = step_ok s0 x []) by reflexivity.
-    rewrite M. destruct (step_ok s0 x []); reflexivity.
+    rewrite M. destruct (step_ok s0 x []); [|reflexivity].
+    (* the first state of a pattern without `all` is not a Kleene state *)
+    unfold start_capture, chain_state. cbn [s_type]. destruct (Nat.eqb 1 (length steps)); reflexivity.
   Qed.
 
   Lemma new_run_abs clock :
